@@ -604,8 +604,17 @@ func c14ReadersVsInserter(r *simrt.Run, w *nomsim.World, wl *nomsim.Workload) {
 	}
 	tempA, stay1, tempB, stay2 := mk("tempA"), mk("stay1"), mk("tempB"), mk("stay2")
 	if t.Bool() {
+		// the moment of leaving is spread over the inserter's work: a tape-chosen number of harmless
+		// reads (each a scheduling point) before each UnRegister
+		padA, padB := t.Choose(120), t.Choose(120)
 		s.Go("unsubscriber", func() {
+			for i := 0; i < padA; i++ {
+				f.Chain.GetFrontierMomentumStore()
+			}
 			f.Chain.UnRegister(tempA)
+			for i := 0; i < padB; i++ {
+				f.Chain.GetFrontierMomentumStore()
+			}
 			f.Chain.UnRegister(tempB)
 		})
 		r.Probe("listeners-leave-during-announcements")
